@@ -908,13 +908,23 @@ func genOps(t *tdesc, r *vh.Rng, avail []string, n int, nInst int) []op {
 			a := o.t
 			ops = append(ops, op{code: "EO", t: a})
 			for i, m := 0, 1+r.Intn(4); i < m; i++ {
-				if nInst > 1 {
+				if nInst > 1 && r.Chance(50) {
 					sub := genOps(t, r, baseOnly(avail), 1, 1)[0]
 					sub.t = (a + 1 + r.Intn(nInst-1)) % nInst
 					sub.k = pool[r.Intn(len(pool))]
 					ops = append(ops, sub)
 				} else {
-					ops = append(ops, op{code: []string{"CK", "SZ", "FK", "LK"}[r.Intn(4)], t: a, k: pool[r.Intn(len(pool))]})
+					// a READ-ONLY operation on the enumerated container itself (a lookup is not a modification: the kept
+					// enumerators must still yield every entry once, in order)
+					c, ok := pickAvail(r, avail, []string{"G", "G", "CK", "CK", "SZ", "FK", "LK", "FV", "LV", "TS", "IE", "IF", "CV"})
+					if !ok {
+						c = "CK"
+					}
+					k := pool[r.Intn(len(pool))]
+					if ks := putK[a]; len(ks) > 0 && r.Chance(70) {
+						k = ks[r.Intn(len(ks))]
+					}
+					ops = append(ops, op{code: c, t: a, k: k})
 				}
 			}
 			ops = append(ops, op{code: "ED", t: a})
